@@ -6,7 +6,8 @@ package server
 //   - what every scripted neighbour has been told (decoded from the bytes written to its
 //     connection; MP_REACH / MP_UNREACH folded into a per-neighbour view).
 // Neighbours: N1 = iBGP, l3vpn-ipv4-unicast + rtc (sends RT memberships); N2 = eBGP,
-// l3vpn-ipv4-unicast only (source of VPN routes); CE = eBGP attached to VRF v1, ipv4-unicast.
+// l3vpn-ipv4-unicast only (source of VPN routes); N3 = iBGP PE, l3vpn-ipv4-unicast only (announces,
+// with a LOCAL_PREF, the VPN NLRI a local VRF originates); CE = eBGP attached to VRF v1, ipv4-unicast.
 // No property is asserted here: traces are judged by TLC (spec/trace/VrfRtcTrace.tla).
 
 import (
@@ -35,6 +36,8 @@ type vrVrf struct {
 }
 
 type vrRoute struct {
+	Src   string   `json:"src"` // announcing PE neighbour: N2 (eBGP) or N3 (iBGP)
+	Lp    uint32   `json:"lp"`  // LOCAL_PREF sent by the iBGP neighbour (0 = none)
 	Rd    string   `json:"rd"`
 	X     string   `json:"x"`
 	Label uint32   `json:"label"`
@@ -81,6 +84,7 @@ type vrPeerDef struct {
 var vrPeerDefs = map[string]vrPeerDef{
 	"N1": {"10.0.0.1", 65000, "1.1.1.1"},
 	"N2": {"10.0.0.2", 65002, "2.2.2.2"},
+	"N3": {"10.0.0.4", 65000, "4.4.4.4"},
 	"CE": {"10.0.0.3", 65010, "3.3.3.3"},
 }
 
@@ -161,7 +165,7 @@ func (w *vrWorld) addPeer(name string) {
 			rtcAf.AddPaths = &api.AddPaths{Config: &api.AddPathsConfig{Receive: true}}
 		}
 		p.AfiSafis = []*api.AfiSafi{{Config: &api.AfiSafiConfig{Family: vpnFam, Enabled: true}}, rtcAf}
-	case "N2":
+	case "N2", "N3":
 		p.AfiSafis = []*api.AfiSafi{{Config: &api.AfiSafiConfig{Family: vpnFam, Enabled: true}}}
 	case "CE":
 		p.Conf.Vrf = vrCeVrf
@@ -187,7 +191,7 @@ func (w *vrWorld) openFor(name string) *bgp.BGPMessage {
 		if w.b.Cfg.AddPath {
 			caps = append(caps, bgp.NewCapAddPath([]*bgp.CapAddPathTuple{bgp.NewCapAddPathTuple(bgp.RF_RTC_UC, bgp.BGP_ADD_PATH_SEND)}))
 		}
-	case "N2":
+	case "N2", "N3":
 		caps = append(caps, bgp.NewCapMultiProtocol(bgp.RF_IPv4_VPN))
 	case "CE":
 		caps = append(caps, bgp.NewCapMultiProtocol(bgp.RF_IPv4_UC))
@@ -230,6 +234,13 @@ func (w *vrWorld) sessionUp(name string) {
 	sp.setOptions(&bgp.MarshallingOption{}, send)
 	vpMust(sp.send(bgp.NewBGPKeepAliveMessage()))
 	synctest.Wait()
+}
+
+func vrPE(r *vrRoute) string {
+	if r.Src == "" {
+		return "N2"
+	}
+	return r.Src
 }
 
 func vrTag(v int) bgp.PathAttributeInterface {
@@ -279,21 +290,24 @@ func (w *vrWorld) step(st vrStep) map[string]any {
 		w.peers["CE"].closeConn()
 		delete(w.peers, "CE")
 	case "VAnn":
-		sp := w.peers["N2"]
+		sp := w.peers[vrPE(st.R)]
 		mp, err := bgp.NewPathAttributeMpReachNLRI(bgp.RF_IPv4_VPN, []bgp.PathNLRI{{NLRI: vrVpnNLRI(st.R)}}, sp.addr)
 		vpMust(err)
-		attrs := []bgp.PathAttributeInterface{
-			bgp.NewPathAttributeOrigin(0),
-			bgp.NewPathAttributeAsPath([]bgp.AsPathParamInterface{bgp.NewAs4PathParam(bgp.BGP_ASPATH_ATTR_TYPE_SEQ, []uint32{sp.as})}),
-			vrTag(st.R.V),
+		attrs := []bgp.PathAttributeInterface{bgp.NewPathAttributeOrigin(0)}
+		if sp.as == simLocalAS {
+			// iBGP PE: empty AS_PATH, LOCAL_PREF
+			attrs = append(attrs, bgp.NewPathAttributeAsPath(nil), bgp.NewPathAttributeLocalPref(st.R.Lp))
+		} else {
+			attrs = append(attrs, bgp.NewPathAttributeAsPath([]bgp.AsPathParamInterface{bgp.NewAs4PathParam(bgp.BGP_ASPATH_ATTR_TYPE_SEQ, []uint32{sp.as})}))
 		}
+		attrs = append(attrs, vrTag(st.R.V))
 		if len(st.R.Rts) > 0 {
 			attrs = append(attrs, bgp.NewPathAttributeExtendedCommunities(vrRTs(st.R.Rts)))
 		}
 		attrs = append(attrs, mp)
 		_ = sp.send(bgp.NewBGPUpdateMessage(nil, attrs, nil))
 	case "VWd":
-		sp := w.peers["N2"]
+		sp := w.peers[vrPE(st.R)]
 		mp, err := bgp.NewPathAttributeMpUnreachNLRI(bgp.RF_IPv4_VPN, []bgp.PathNLRI{{NLRI: vrVpnNLRI(st.R)}})
 		vpMust(err)
 		_ = sp.send(bgp.NewBGPUpdateMessage(nil, []bgp.PathAttributeInterface{mp}, nil))
@@ -534,7 +548,7 @@ func (w *vrWorld) observe() map[string]any {
 	sess := map[string]string{}
 	vpnv := map[string]any{}
 	junk := map[string]int{}
-	for _, name := range []string{"N1", "N2", "CE"} {
+	for _, name := range []string{"N1", "N2", "N3", "CE"} {
 		sp, ok := w.peers[name]
 		if !ok {
 			sess[name] = "absent"
@@ -643,6 +657,12 @@ func vrRun(t *testing.T, tr *vpTrace, tid int, b *vrBehaviour) {
 		w.ss = newSimServer(t, &api.Global{Asn: simLocalAS})
 		w.addPeer("N1")
 		w.addPeer("N2")
+		for _, st := range b.Steps { // the iBGP PE is configured only in schedules that use it
+			if st.P == "N3" {
+				w.addPeer("N3")
+				break
+			}
+		}
 		synctest.Wait()
 		tr.Emit(map[string]any{"ev": "Reset", "tid": tid, "cfg": b.Cfg})
 		for _, st := range b.Steps {
